@@ -21,6 +21,7 @@ import (
 	"strconv"
 	"strings"
 	"sync"
+	"sync/atomic"
 	"time"
 
 	"github.com/folbricht/desync"
@@ -50,8 +51,8 @@ type gSched struct {
 	threads []*gThread
 	byGid   map[string]*gThread
 	wake    chan struct{}
-	free    bool // let everything run (after a failure)
-	Steps   int
+	free    bool  // let everything run (after a failure)
+	Steps   int64 // atomic
 	Trace   []string
 }
 
@@ -199,12 +200,12 @@ func (s *gSched) run(rng *vh.Rand, maxSteps int) string {
 			}
 			return fmt.Sprintf("deadlock: %d goroutines blocked on a lock, none can run\n%s", blocked, d)
 		}
-		if s.Steps >= maxSteps {
+		if atomic.LoadInt64(&s.Steps) >= int64(maxSteps) {
 			s.release()
 			return "schedule too long"
 		}
 		t := parked[rng.Intn(len(parked))]
-		s.Steps++
+		atomic.AddInt64(&s.Steps, 1)
 		if len(s.Trace) < 400 {
 			s.Trace = append(s.Trace, fmt.Sprintf("%d@%s", t.id, t.site))
 		}
@@ -358,7 +359,7 @@ func c11RunConc(c *c11ConcCase) (fails []c11PolicyFail, reqs []*c11Req, err erro
 					}
 					continue
 				}
-				r := &c11Req{Thread: ti, Op: op, Start: sched.Steps}
+				r := &c11Req{Thread: ti, Op: op, Start: int(atomic.LoadInt64(&sched.Steps))}
 				mu.Lock()
 				cur[gid] = r
 				reqs = append(reqs, r)
